@@ -39,13 +39,13 @@ TEXT = {
         "level": "Exploration by runtime monitoring: each top-down compilation (both node stores) is compared with brute-force evaluation of the clause list, the false-constant/UNSAT correspondence and per-path single decision are checked structurally, and condition() on the result and on its negation is compared with the cofactor for every literal; all decision orders are enumerated for CNFs over <= 4 variables.",
         "design_ref": "DESIGN.md section 4, C06",
         "note": NOTE,
-        "technique": "runtime monitor: differential check against brute-force CNF semantics + structural path invariant + conditioning oracle, workload biased to component-cache hits and late UNSAT; wide regime and several CNFs per builder with drift re-walks",
+        "technique": "runtime monitor: differential check against brute-force CNF semantics + structural path invariant + conditioning oracle, workload biased to component-cache hits and late UNSAT; wide regime and several CNFs per builder with drift re-walks; Miri leg on both node stores; recorded residual-hash collision witness",
     },
     "C09": {
         "level": "Exploration by runtime monitoring of decide/pop histories: an online checker compares every observable solver state with brute-force entailment over all models, an independent naive propagator, a recorded-state stack (pop restore) and a per-solver hash->residual map. Right level because watched-literal bugs depend on the history of falsifications across backtracking, which only long random walks reach.",
         "design_ref": "DESIGN.md section 4, C09",
         "note": NOTE,
-        "technique": "runtime monitor: online trace checker over decide/pop histories against brute-force entailment, reference propagator and recorded pre-decision states (read-only model hook); wide regime (CNF variables spread over up to 200 labels)",
+        "technique": "runtime monitor: online trace checker over decide/pop histories against brute-force entailment, reference propagator and recorded pre-decision states (read-only model hook); wide regime (CNF variables spread over up to 200 labels); recorded residual-hash collision witnesses (F12)",
     },
     "C07": {
         "level": "Exploration by runtime monitoring: every count returned by the library on generated BDDs / SDDs / decision-DNNFs in all nine shipped semiring instances is compared for exact equality with the defining sum over models computed from the truth table in exact arithmetic; BDDs also under arbitrary weights against the unsmoothed count; evaluate() against the truth table on every assignment.",
@@ -75,7 +75,7 @@ TEXT = {
         "level": "Exploration by runtime monitoring: CNF utilities, partial-model / variable-set bookkeeping and the residual hasher are driven with generated inputs and operation histories and compared with set-theoretic reference models (truth tables, HashMap/HashSet, exact sums, residual families).",
         "design_ref": "DESIGN.md section 4, C15",
         "note": NOTE,
-        "technique": "runtime monitor: reference-model comparison (truth table, map/set models, exact brute-force sum) and a functional-dependency checker hash<->residual over push/decide/pop histories; partial models / variable sets over up to 300 variables",
+        "technique": "runtime monitor: reference-model comparison (truth table, map/set models, exact brute-force sum) and a functional-dependency checker hash<->residual over push/decide/pop histories; partial models / variable sets over up to 300 variables; Cnf::from_string",
     },
     "C10": {
         "level": "Exploration by runtime monitoring of query histories: interleaved queries of different memo types on pools of diagrams sharing nodes are checked for repeatability, for agreement with the same query on a freshly rebuilt copy, and a full scratch scan of every reachable node runs after every public call; rsdd's own debug assertions are compiled in; Miri leg for the boxed-Any scratch traffic.",
@@ -87,7 +87,7 @@ TEXT = {
         "level": "Exploration by runtime monitoring: hashes returned by the library for many representations of one function are compared with the defining sum computed independently from the truth table (which also makes them equal to each other), negation and cached-vs-recomputed are checked, and the hash-identified builders are driven through operation histories with an eq()-on-equal-functions monitor (all primes) and a truth-table oracle (64-bit prime).",
         "design_ref": "DESIGN.md section 4, C11",
         "note": NOTE,
-        "technique": "runtime monitor: defining-sum reference model for hashes across representations + operation-history monitor of the semantic builders (equality on equal functions; truth-table oracle over the 64-bit field); builder hash accessors; semantic SDD builders over spread labels",
+        "technique": "runtime monitor: defining-sum reference model for hashes across representations + operation-history monitor of the semantic builders (equality on equal functions; truth-table oracle over the 64-bit field); builder hash accessors; semantic SDD builders over spread labels; Miri leg on the hash-identified builders, AddressSanitizer leg on the whole workload incl. 524 286-node by-hash tables; zero-divisor construction against the exported 64-bit modulus",
     },
     "C12": {
         "level": "Exploration by runtime monitoring: every optimisation query (marginal MAP, MEU, generic branch and bound in both semirings) on generated BDDs is compared for exact equality with exhaustive maximisation computed by the oracle from the truth table, and the returned model is re-evaluated by the oracle; near-ties and tiny magnitudes are generated deliberately because pruning errors depend on the relation between sibling bounds.",
